@@ -523,20 +523,30 @@ Definition add_node (n p : name) (cap : res) : cprog oerr :=
         (Some (fun by_cond : bool => if by_cond then rok else doc (PRemoveNode n)))
   end.
 
+(* the part of RemoveNode after the node has been fetched again under the pod lock *)
+Definition remove_node_inner (n : name) : cprog oerr :=
+  r <- call1 (SListNodeWorkloads n) ;;
+  match r with
+  | RWls [] =>
+    txn (ign (doc (SSetNodeStatus n 90)) ;;;
+         e <- doc (SRemoveNode n) ;;
+         match e with
+         | Some e => Ret (Some e)
+         | None => ign (doc (SSetNodeStatus n (-1))) ;;; rok
+         end)
+        (Some (doc (PRemoveNode n)))
+        (Some (fun _ : bool => rok))
+  | RWls _ => Ret (Some ENatural)
+  | RErr e => Ret (Some e)
+  | _ => Ret (Some ENatural)
+  end.
+
 Definition remove_node (n : name) : cprog oerr :=
-  with_node_pod_locked n (fun _ =>
-    r <- call1 (SListNodeWorkloads n) ;;
-    match r with
-    | RWls [] =>
-      txn (ign (doc (SSetNodeStatus n 90)) ;;;
-           e <- doc (SRemoveNode n) ;;
-           match e with
-           | Some e => Ret (Some e)
-           | None => ign (doc (SSetNodeStatus n (-1))) ;;; rok
-           end)
-          (Some (doc (PRemoveNode n)))
-          (Some (fun _ : bool => rok))
-    | RWls _ => Ret (Some ENatural)
+  with_node_pod_locked n (fun x =>
+    (* the node was fetched before the pod lock was taken: fetch it again, it must still be in the same pod *)
+    r0 <- call1 (SGetNode n) ;;
+    match r0 with
+    | RNode y => if Nat.eqb (n_pod y) (n_pod x) then remove_node_inner n else Ret (Some ENatural)
     | RErr e => Ret (Some e)
     | _ => Ret (Some ENatural)
     end).
